@@ -16,6 +16,7 @@ mod c15;
 mod c16;
 mod c17;
 mod c18;
+mod c19;
 mod c20;
 
 use vrt::Tier;
@@ -68,6 +69,8 @@ fn main() {
         "C12" => c12::main(&args),
         "C13" => c13::main(&args),
         "C15" => c15::main(&args),
+        "C19" => c19::main(&args),
+        "c19-debug" => c19::debug_unparseable(),
         "C14" => c14::main(&args),
         "setup" => {
             // generate and build every quick-tier corpus so that the first quick check is fast
